@@ -56,6 +56,11 @@ Catalogue == {
     [name |-> "case-range-mismatch", cats |-> {"TYPE_MISMATCH"}, rule |-> "pair"],
     [name |-> "for-string-bound",   cats |-> {"TYPE_MISMATCH"}, rule |-> "pair"],
     [name |-> "arg-mismatch",       cats |-> {"TYPE_MISMATCH"}, rule |-> "line"],
+    [name |-> "const-arg-mismatch", cats |-> {"TYPE_MISMATCH"}, rule |-> "line"],
+    [name |-> "const-case-mismatch", cats |-> {"TYPE_MISMATCH"}, rule |-> "pair"],
+    [name |-> "const-cond-string",  cats |-> {"TYPE_MISMATCH"}, rule |-> "pair"],
+    [name |-> "next-other-suffix",  cats |-> Syn, rule |-> "pair"],
+    [name |-> "next-other-var",     cats |-> Syn, rule |-> "pair"],
     [name |-> "arg-mismatch-fn",    cats |-> {"TYPE_MISMATCH"}, rule |-> "line"],
     [name |-> "subscript-string",   cats |-> {"TYPE_MISMATCH"}, rule |-> "line"],
     [name |-> "undef-label",        cats |-> {"LABEL_NOT_DEFINED"}, rule |-> "line"],
